@@ -237,6 +237,120 @@ def run(ctx):
              '_CONTINUE_TASK_PATH', ctx.construct(wb),
              'wait-before does not schedule _continue_task', ctx.loc(wb))
 
+    # delay policies: DELAYED implies a scheduled continuation, once
+    for fpol, resume_state in ((wb, 'states.RUNNING'), (wa, None)):
+        pcfg = ctx.cfg(fpol)
+        SK = "policy_ctx.get('skip')"
+        dly = [(n, c) for n, c in U.calls_in(pcfg, 'set_state')
+               if c.args and norm(c.args[0]) == 'states.RUNNING_DELAYED']
+        sch = [n for n, c in pcfg.calls(
+            lambda c: U.call_name(c) == 'schedule' and
+            isinstance(c.func, ast.Attribute))]
+        mark = [n for n, c in pcfg.calls(
+            lambda c: U.call_name(c) == 'update' and
+            dotted(c.func.value) == 'policy_ctx' and c.args and
+            norm(c.args[0]) == "{'skip': True}")]
+        if not dly or not sch or not mark:
+            raise AnalysisError('C08.R3: %s lost its delay structure'
+                                % fpol.qname)
+        for n, c in dly:
+            r3.check(U.guarded(pcfg, n, SK, False),
+                     ctx.construct(fpol, extra='delays once'),
+                     'the task is delayed although it already was (skip '
+                     'mark set)', ctx.loc(fpol, c))
+            r3.check(pcfg.must_pass(n, sch),
+                     ctx.construct(fpol, extra='DELAYED => continuation '
+                                   'scheduled'),
+                     'the task can be left RUNNING_DELAYED without a '
+                     'scheduled job that moves it on (it would be lost)',
+                     ctx.loc(fpol, c))
+            r3.check(pcfg.must_pass(pcfg.entry, mark, exits=[n]),
+                     ctx.construct(fpol, extra='skip mark before delaying'),
+                     'the skip mark is not set before delaying (the '
+                     'continuation would delay again, for ever)',
+                     ctx.loc(fpol, c))
+        jobs = [x for x in own_nodes(fpol.node) if isinstance(x, ast.Call)
+                and U.call_name(x) == 'SchedulerJob']
+        r3.check(bool(jobs) and norm(U.kwarg(jobs[0], 'run_after')) ==
+                 'self.delay' and U.phas(U.kwarg(jobs[0], 'func_args'),
+                                         'task.get_id()'),
+                 ctx.construct(fpol, extra='job after self.delay for this '
+                               'task'),
+                 'the continuation is not scheduled after self.delay for '
+                 'this task', ctx.loc(fpol))
+        if resume_state:
+            back = [(n, c) for n, c in U.calls_in(pcfg, 'set_state')
+                    if c.args and norm(c.args[0]) == resume_state]
+            r3.check(bool(back) and all(U.guarded(pcfg, n, SK, True)
+                                        for n, c in back) and any(
+                x.kind == 'stmt' and isinstance(x.ast, ast.Return) and
+                U.guarded(pcfg, x, SK, True) for x in pcfg.nodes),
+                ctx.construct(fpol, extra='continuation un-delays'),
+                'the continuation does not put the task back to RUNNING '
+                '(and stop) exactly when the skip mark is set',
+                ctx.loc(fpol))
+            r3.check(all(U.guarded(pcfg, n, 'task.get_state() == '
+                                   'states.IDLE', False) for n, c in dly),
+                     ctx.construct(fpol, extra='not for IDLE tasks'),
+                     'an IDLE (pause-before) task is delayed',
+                     ctx.loc(fpol))
+        else:
+            r3.check(any(x.kind == 'stmt' and isinstance(x.ast, ast.Return)
+                         and U.guarded(pcfg, x, SK, True)
+                         for x in pcfg.nodes),
+                     ctx.construct(fpol, extra='second round returns'),
+                     'the completion scheduled by wait-after is delayed '
+                     'again', ctx.loc(fpol))
+
+    # a configured policy takes effect: the only fact about its parameter
+    # that may stand between entry and the effect is "parameter is set"
+    active = (
+        ('WaitBeforePolicy.before_task_start', 'self.delay', 'schedule'),
+        ('WaitAfterPolicy.after_task_complete', 'self.delay', 'schedule'),
+        ('TimeoutPolicy.before_task_start', 'self.delay', 'schedule'),
+        ('PauseBeforePolicy.before_task_start', 'self.expr',
+         'pause_workflow'),
+        ('ConcurrencyPolicy.before_task_start', 'self.concurrency',
+         'set_runtime_context_value'),
+        ('RetryPolicy.after_task_complete', 'self.count', 'schedule'),
+    )
+    for meth, param, effect in active:
+        pf = prog.func(POL + '.' + meth)
+        pcfg = ctx.cfg(pf)
+        effs = [n for n, c in pcfg.calls(
+            lambda c: U.call_name(c) == effect and
+            isinstance(c.func, ast.Attribute))]
+        if not effs:
+            raise AnalysisError('C08.R3: %s lost its effect %s'
+                                % (meth, effect))
+        for n in effs:
+            bad = []
+            for a_, t_ in U.guard_atoms(pcfg, n):
+                if norm(a_) == param:
+                    if t_ is not True:
+                        bad.append((norm(a_), t_))
+                elif isinstance(a_, ast.Compare) and \
+                        norm(a_.left) == param and \
+                        norm(a_.comparators[0]) == '0':
+                    if (isinstance(a_.ops[0], ast.Eq) and t_ is not False):
+                        bad.append((norm(a_), t_))
+            if meth.startswith('PauseBefore'):
+                r3.check(U.guarded(pcfg, n, param, True),
+                         ctx.construct(pf, extra='only when the expression '
+                                       'holds'),
+                         'pause-before pauses although its (evaluated) '
+                         'expression is false', ctx.loc(pf))
+            if meth.startswith('Timeout'):
+                r3.check(U.guarded(pcfg, n, param + ' == 0', False) or
+                         U.guarded(pcfg, n, param, True),
+                         ctx.construct(pf, extra='no timer for timeout 0'),
+                         'a timeout evaluated to 0 (= no timeout) arms a '
+                         'timer that fails the task at once', ctx.loc(pf))
+            r3.check(not bad, ctx.construct(pf, extra='active when '
+                                            'configured'),
+                     'the policy effect (%s) is skipped when the policy IS '
+                     'configured: %s' % (effect, bad), ctx.loc(pf))
+
     # ---- R4 policy keys agree ----------------------------------------------------------
     r4 = ctx.rule('R4', 'policy keys agree across schemas, grouping, getters '
                   'and factories', 'AGREE/EXH')
